@@ -8,8 +8,6 @@ open CR.Xsd CR.XmlNum CR.XmlW
 
 /-! ### occupancy, occupancy set, trajectory, signal series -/
 
-def OccOk (o : Occ) : Prop := ShapeOk o.shape ∧ TimeOk o.t
-
 theorem pt_occupancy : PlainType "occupancy" := by unfold PlainType; decide
 
 theorem valid_occ (p : Nat) {o : Occ} (h : OccOk o) : validNode schema "occupancy" (occNode p o) = true := by
@@ -83,9 +81,6 @@ theorem id_valid {T : String} (hT : IdType T) {n : String} {i : Int} (hi : 1 ≤
     validNode schema T (.node n (idAttr i) [] kids) = validKids schema ts kids :=
   validNode_complex hT (attrs_id hi) hm
 
-def StaticOk (o : StaticObs) : Prop :=
-  1 ≤ o.id ∧ acceptsV "obstacleTypeStatic" o.type = true ∧ ShapeOk o.shape ∧ InitialStateOk o.init
-
 theorem it_static : IdType "staticObstacle" := by unfold IdType; decide
 
 theorem valid_static (p : Nat) {o : StaticObs} (h : StaticOk o) : validNode schema "staticObstacle" (staticNode p o) = true := by
@@ -96,8 +91,6 @@ theorem valid_static (p : Nat) {o : StaticObs} (h : StaticOk o) : validNode sche
   simp only [validKids, leaf_enum "type" _ _ h.2.1, valid_shape p false h.2.2.1, valid_initialState p "initialState" h.2.2.2,
     Bool.and_self]
 
-def EnvObsOk (o : EnvObs) : Prop := 1 ≤ o.id ∧ acceptsV "obstacleTypeEnvironment" o.type = true ∧ ShapeOk o.shape
-
 theorem it_envObs : IdType "environmentObstacle" := by unfold IdType; decide
 
 theorem valid_envObs (p : Nat) {o : EnvObs} (h : EnvObsOk o) :
@@ -106,9 +99,6 @@ theorem valid_envObs (p : Nat) {o : EnvObs} (h : EnvObsOk o) :
     decide
   rw [envObsNode, id_valid it_envObs h.1 (ts := ["obstacleTypeEnvironment", "shape"]) (by simpa [el, leaf, Xml.name] using hm)]
   simp only [validKids, leaf_enum "type" _ _ h.2.1, valid_shape p false h.2.2, Bool.and_self]
-
-/-- a phantom obstacle has a (non-empty) set-based prediction -/
-def PhantomOk (o : PhantomObs) : Prop := 1 ≤ o.id ∧ ∃ os, o.occ = some os ∧ os ≠ [] ∧ ∀ x ∈ os, OccOk x
 
 theorem it_phantom : IdType "phantomObstacle" := by unfold IdType; decide
 
@@ -119,16 +109,6 @@ theorem valid_phantom (p : Nat) {o : PhantomObs} (h : PhantomOk o) :
   rw [phantomNode, ho, optOccSetNodes, id_valid it_phantom hid (ts := ["phantomObstacle/occupancySet"])
     (by simpa [occSetNode, el, Xml.name] using hm)]
   simp only [validKids, valid_occSet _ pt_phOccSet (by decide) (by decide) p hne hos, Bool.and_self]
-
-/-- a dynamic obstacle: a prediction is required; the initial signal state is at step 0, the series at steps ≥ 1 -/
-def DynOk (o : DynObs) : Prop :=
-  1 ≤ o.id ∧ acceptsV "obstacleTypeDynamic" o.type = true ∧ ShapeOk o.shape ∧ InitialStateOk o.init ∧
-  (∀ s, o.sig0 = some s → s.t = 0) ∧
-  (match o.pred with
-   | .none => False
-   | .traj sts => sts ≠ [] ∧ ∀ st ∈ sts, StateOk st
-   | .occ os => os ≠ [] ∧ ∀ x ∈ os, OccOk x) ∧
-  (∀ s ∈ o.series, 1 ≤ s.t)
 
 theorem it_dynamic : IdType "dynamicObstacle" := by unfold IdType; decide
 
